@@ -101,6 +101,13 @@ def build_unit(tier, seed):
             b = ", ".join(K(i) for i in full[cut:])
             u.add("use_classes|%s|nested" % style, "use_classes<types<...>, types<...>, P> flattens the groups",
                   "static_assert(std::is_same_v<use_classes<detail::types<%s>, detail::types<%s>, P1>, %s>);" % (a, b, expected(ns, full, anc, "P1")))
+            # ... whatever the order of the groups: a derived class may sit in a group that precedes its base's group
+            rev = full[::-1]
+            cuts = sorted(rnd.sample(range(1, n), min(2, n - 1)))
+            groups = [rev[i:j] for i, j in zip([0] + cuts, cuts + [n])]
+            gtxt = ", ".join("detail::types<%s>" % ", ".join(K(i) for i in g) for g in groups)
+            u.add("use_classes|%s|nested-derived-first" % style, "use_classes over groups in which derived classes precede their bases is the flat list's result",
+                  "static_assert(std::is_same_v<use_classes<%s, P1>, %s>);" % (gtxt, expected(ns, rev, anc, "P1")))
         # the macro form passes (classes..., [policy,] default policy)
         args = ", ".join(K(i) for i in full)
         u.add("use_classes_macro|%s|policy" % style, "YOMM2_CLASSES form with an explicit policy (second-last) ignores the trailing default policy",
